@@ -942,6 +942,14 @@ func (g *gen) nested() string {
 	if g.r.Chance(1, 3) {
 		call = 0xf1
 		p.pushU(0)
+	} else if !identity && g.r.Chance(1, 3) {
+		// CALLCODE (value 0) / DELEGATECALL: the callee's code in a frame of its own
+		if g.r.Chance(1, 2) {
+			call = 0xf2
+			p.pushU(0)
+		} else {
+			call = 0xf4
+		}
 	}
 	if identity {
 		p.pushU(4)
